@@ -178,7 +178,10 @@ def run_scenario(sc):
     # the mesh the mean is taken over must itself be the documented one: every requested distribution and what
     # get_mesh returned for it is handed to the weights specification (WeightsTrace, shared with C02)
     for p, (v0, d, wts), lim in zip(P.call_parameters[2:2 + P.npars], kmesh, lims):
-        if p.polydisperse and pars.get(p.name + "_pd_n", 0) and pars.get(p.name + "_pd", 0.0) and p.type != "orientation":
+        # (positive centres only: the weights property is stated for centres in [0.1, 1e4]; a relative width about a
+        # negative centre gives a mesh in decreasing order, which the mean does not care about)
+        if (p.polydisperse and pars.get(p.name + "_pd_n", 0) and pars.get(p.name + "_pd", 0.0) and p.type != "orientation"
+                and float(pars.get(p.name, p.default)) > 0.0):
             emit({"tid": sc["tid"], "ev": "GetW", "model": sc["model"], "dim": sc["dim"],
                   "q": {"type": str(pars.get(p.name + "_pd_type", "gaussian")), "n": int(pars[p.name + "_pd_n"]),
                         "width": fstr(pars[p.name + "_pd"]), "nsigma": fstr(pars.get(p.name + "_pd_nsigma", 3.0)),
